@@ -73,6 +73,9 @@ class C17(L1Prop):
                 ops += [f"walk {c}", f"{at()} GET snap - hyph={c} absent e", f"{at()} POST av hyph=latest:{c} hyph={c} history b:5"]
             if held:
                 ops.append("unhold")
+            if k % 5 == 3:
+                # the directory is what a first start that died at once leaves behind: an empty database file
+                ops.insert(0, "emptydb")
             if k % 4 == 2:
                 # first of all: one of several listen addresses is taken by another process
                 nn = r.choice([2, 3])
